@@ -73,6 +73,13 @@ def collision_doc(group: list, scope: str) -> dict:
     elif scope == "params_across_locations":
         locs = ["query", "cookie", "query", "cookie"]
         d["paths"]["/p"] = {"get": {"operationId": "op", "parameters": [{"name": n, "in": locs[i % 4], "schema": {"type": "string"}} for i, n in enumerate(group)], "responses": ok}}
+    elif scope == "params_path_item_vs_operation":
+        # the first name(s) on the path item, the rest on the operation: an operation-level parameter overrides a path-item one only when
+        # name *and* location are equal, so all of them are parameters of the operation
+        cut = max(1, len(group) // 2)
+        d["paths"]["/p"] = {"parameters": [{"name": n, "in": "query", "schema": {"type": "string"}} for n in group[:cut]],
+                            "get": {"operationId": "op", "parameters": [{"name": n, "in": "query", "schema": {"type": "string"}} for n in group[cut:]], "responses": ok},
+                            "post": {"operationId": "op2", "responses": ok}}
     elif scope == "schemas":
         for n in group:
             S[n] = {"type": "object", "properties": {"a": {"type": "string"}}}
@@ -145,13 +152,14 @@ def main() -> int:
             info[j["id"]] = ("name", X, slot, pre)
             jobs.append(j)
     scopes = ["properties", "params_same_location", "params_across_locations", "schemas", "enum_schemas", "operation_ids", "tags", "schema_vs_inline", "enum_members",
-              "allof_inherited_properties", "allof_redeclared_properties", "operation_ids_multi_tag"]
+              "allof_inherited_properties", "allof_redeclared_properties", "operation_ids_multi_tag", "params_path_item_vs_operation"]
     ENUM_GROUPS = [["first", "VALUE_2", "3rd", "last"], ["value_1", "*", "all"], ["VALUE_0", "", "z"], ["a", "VALUE_3", "b", "4th"], ["a-b", "a_b"], ["a", "A"], ["x y", "x_y", "q"], ["VALUE_1", "a", "1"], ["Value 1", "9"], ["ok", "OK", "Ok"]]
     for k in range(120 if quick else 1800):
         size = r.choice([2, 2, 3, 4])
         group = names.colliding_set(r, size)
         if r.random() < 0.3:
-            group = r.choice([["FooBAR", "FooBar"], ["get-thing", "get_thing"], ["a-b", "a_b"], ["Abc", "abc"], ["x1", "x_1", "X1"], ["user id", "user_id", "userId", "UserID"], ["class", "class_"], ["type", "Type", "TYPE"], ["_a", "a"], ["a.b", "a b"]])
+            group = r.choice([["FooBAR", "FooBar"], ["get-thing", "get_thing"], ["a-b", "a_b"], ["Abc", "abc"], ["x1", "x_1", "X1"], ["user id", "user_id", "userId", "UserID"], ["class", "class_"], ["type", "Type", "TYPE"], ["_a", "a"], ["a.b", "a b"],
+                              ["limit", "limit "], [" sort", "sort"], ["page\t", "page"], ["a", " a ", "a  "], ["x\u00a0", "x"], ["q", "q\u2003"]])
         scope = scopes[k % len(scopes)]
         if scope == "enum_members":
             group = ENUM_GROUPS[(k // len(scopes)) % len(ENUM_GROUPS)]
@@ -160,6 +168,50 @@ def main() -> int:
         j = run.job(collision_doc(group, scope), want=["manifest", "tree"], cfg={"field_prefix": prefixes[k % len(prefixes)], **({"generate_all_tags": True} if scope == "operation_ids_multi_tag" else {})})
         info[j["id"]] = ("collide", tuple(group), scope, prefixes[k % len(prefixes)])
         jobs.append(j)
+    # behavioural side of "never merge" for a model's attributes: a typed property next to siblings spelled like the names the templates derive
+    # from it (suffixes / prefixes); every property carries its own token through decode and encode
+    SUFFIXES = ["{}_data", "_{}", "{}_item", "{}_item_data", "{}_type_0", "{}_type_1", "{}_", "{}s", "_parse_{}", "{}_dict", "{}_json", "field_{}"]
+    TYPED = {"date": ({"type": "string", "format": "date"}, "2020-01-02"), "datetime": ({"type": "string", "format": "date-time"}, "2020-01-02T03:04:05+00:00"), "uuid": ({"type": "string", "format": "uuid"}, "00000000-0000-4000-8000-0000000000aa"),
+             "enum": ({"$ref": "#/components/schemas/Col"}, "g"), "model": ({"$ref": "#/components/schemas/Inner"}, {"k": "a"}), "list": ({"type": "array", "items": {"$ref": "#/components/schemas/Inner"}}, [{"k": "a"}, {"k": "b"}]),
+             "dates": ({"type": "array", "items": {"type": "string", "format": "date"}}, ["2020-01-02"]), "union": ({"oneOf": [{"$ref": "#/components/schemas/Inner"}, {"type": "string", "format": "date"}]}, "2021-02-03"),
+             "nullable": ({"type": "string", "format": "date", "nullable": True}, None)}
+    bjobs = []
+    for bi, base_name in enumerate(["when", "ownerRef"] if quick else ["when", "ownerRef", "x", "value", "Item9"]):
+        for tk, (tsch, tval) in TYPED.items():
+            for first in (True, False):
+                sib = [sfx.format(base_name) for sfx in SUFFIXES]
+                props = {n_: {"type": "string"} for n_ in sib}
+                props = {**props, base_name: docs.clone(tsch)} if first else {base_name: docs.clone(tsch), **props}
+                d = docs.base_doc("3.0.3", "Derived names API")
+                d["components"]["schemas"] = {"Inner": {"type": "object", "properties": {"k": {"type": "string"}}}, "Col": {"type": "string", "enum": ["r", "g"]},
+                                              "Holder": {"type": "object", "required": sib[::2], "properties": props}}
+                full = {n_: f"tok-{i_}" for i_, n_ in enumerate(sib)}
+                full[base_name] = tval
+                inst = [["full", full, []], ["absent", {n_: f"t2-{i_}" for i_, n_ in enumerate(sib)}, []]]
+                j = run.job(d, want=["manifest"], plan={"fn": "models_given", "args": {"instances": {"/components/schemas/Holder": inst}}})
+                bjobs.append((j, base_name, tk, sib))
+    for (j, base_name, tk, sib), res in zip(bjobs, run.map([b[0] for b in bjobs], timeout=300)):
+        if res.get("_error") or (res.get("sandbox") or {}).get("_error") or res.get("exc"):
+            continue
+        from ..harness import actions_results
+        from .. import expect
+        w = {"doc": j["doc"], "base": base_name, "kind": tk}
+        acts = actions_results(res)
+        if not acts:
+            if not res.get("diags"):
+                vd.violation("dropped_without_diagnostic:properties", f"model with a {tk} property {base_name!r} and siblings {sib[:3]}... not generated, no diagnostic", w)
+            continue
+        for a, x in acts:
+            ev.count("derived_sibling_roundtrips")
+            if x.get("action_exc") or x.get("exc"):
+                ex_ = x.get("action_exc") or x.get("exc")
+                vd.violation(f"runtime_merge:attributes:{tk}:exception", f"Holder with a {tk} property {base_name!r} next to {sib}: {ex_.get('type')}: {str(ex_.get('msg'))[:120]}", w)
+                continue
+            if not expect.jeq(x.get("e"), a["value"]):
+                changed = sorted(k_ for k_ in set(a["value"]) | set(x.get("e") or {}) if (x.get("e") or {}).get(k_) != a["value"].get(k_))
+                pat = next((sfx for sfx in SUFFIXES if sfx.format(base_name) in changed), "base")
+                vd.violation(f"runtime_merge:attributes:{tk}:{pat.replace('{}', 'N')}", f"Holder with a {tk} property {base_name!r}: values of {changed} do not survive decode + encode: {expect.jdiff(x.get('e'), a['value'])[:200]}", w)
+        ev.seen(("C09", "derived_siblings", base_name, tk))
     rs = run.map(jobs, timeout=300)
     for j, res in zip(jobs, rs):
         kind, X, slot, pre = info[j["id"]]
@@ -240,14 +292,23 @@ def main() -> int:
                     if not res.get("diags"):
                         vd.violation("dropped_without_diagnostic:params", f"operation with parameters {group} not generated, no diagnostic", w)
                 else:
-                    py = [p["python_name"] for loc in eps[0]["params"].values() for p in loc]
-                    if len(set(py)) < len(group):
+                    ep0 = next((e_ for e_ in eps if e_.get("name") == "op" or e_.get("module") == "op"), eps[0])
+                    py = [p["python_name"] for loc in ep0["params"].values() for p in loc]
+                    if len(set(py)) < len(group) and not any(g in diag_text for g in group):
                         vd.violation("merged:parameters", f"parameters {group} became {py}", w)
+                    ev.count("parameter_scopes_compared")
             elif slot in ("schemas", "enum_schemas"):
                 refs = man.get("refs") or {}
-                got = {g: refs.get(f"/components/schemas/{g}") for g in group}
-                classes = [v["cls"] for v in got.values() if v and v.get("cls")]
-                undiag = [g for g, v in got.items() if not v and g not in diag_text]
+                from urllib.parse import urlparse
+                # the generator keys schemas by the URL fragment of their reference: urlparse drops tab / newline characters and surrounding blanks
+                got = {g: refs.get(f"/components/schemas/{g}") or refs.get(urlparse(f"#/components/schemas/{g}").fragment) for g in group}
+                frag = {g: urlparse(f"#/components/schemas/{g}").fragment for g in group}
+                for fr in set(frag.values()):
+                    same = [g for g in group if frag[g] == fr]
+                    if len(same) > 1 and fr.rsplit("/", 1)[-1] not in diag_text:
+                        vd.violation(f"merged:reference_paths:{slot}", f"schemas {same} share the reference path {fr!r} and no diagnostic names it", w)
+                classes = [v["cls"] for fr, v in {frag[g]: got[g] for g in group}.items() if v and v.get("cls")]
+                undiag = [g for g, v in got.items() if not v and g not in diag_text and urlparse(f"#/components/schemas/{g}").fragment.rsplit("/", 1)[-1] not in diag_text]
                 if len(set(classes)) < len(classes):
                     vd.violation(f"merged:classes:{slot}", f"schemas {group} share classes {classes}", w)
                 if undiag:
